@@ -2662,9 +2662,9 @@ class FuncLs(ValueFunc):
         if args.hasArg("module"):
             moduleArg = args.get("module")
             if moduleArg.isString():
-                module = environment.get(moduleArg.value, pos).value
-            else:
-                module = args.get("module").asObject().value
+                # the name of a module (or of an object or a map)
+                moduleArg = environment.get(moduleArg.value, pos)
+            module = moduleArg.asObject().value
             for symbol in module:
                 result.addItem(ValueString(symbol))
         else:
